@@ -185,7 +185,8 @@ impl SourceView {
 
         // fetched everything
         if self.processed_until.load(Ordering::Relaxed) > self.source.len() {
-            return None;
+            // another thread may have indexed the line since the check above
+            return self.lines.lock().unwrap().get(idx).copied();
         }
 
         #[cfg(sourcemap_verif)]
@@ -194,6 +195,13 @@ impl SourceView {
         crate::verif_hooks::yield_point(3);
 
         let mut lines = self.lines.lock().unwrap();
+        // another thread may have extended or finished the index in the meantime
+        if let Some(&line) = lines.get(idx) {
+            return Some(line);
+        }
+        if self.processed_until.load(Ordering::Relaxed) > self.source.len() {
+            return None;
+        }
         let mut done = false;
 
         while !done {
